@@ -970,3 +970,15 @@ Lemma builder_history_R : forall (h : list (BOp (T:=R))) (l : list (PathEl R)) p
   exists outs, outs_from None l = Some outs /\ segments l = Some (cat_somes outs) /\
                length outs = length l /\ forall i, get_seg_req l i = nth i outs None.
 Proof. intros h l pops _ Hs. split; [reflexivity|]. apply (get_seg_req_spec pt_eqb_RS). exact Hs. Qed.
+
+(** outside the two corners the pinned [get_seg] is the required one *)
+Lemma get_seg_agrees_off_corners {T : Type} {SC : Scalar T} (els : list (PathEl T)) (i : nat) :
+  nth_error els (i - 1) <> Some ClosePath -> nth_error els i <> Some ClosePath ->
+  get_seg els i = get_seg_req els i.
+Proof.
+  intros Hp He. unfold get_seg, get_seg_req.
+  destruct ((i =? 0) || (length els <=? i)); [reflexivity|].
+  destruct (nth_error els (i - 1)) as [prev|]; [|reflexivity].
+  destruct prev; try congruence; simpl;
+    destruct (nth_error els i) as [[]|]; try reflexivity; congruence.
+Qed.
